@@ -35,6 +35,8 @@ def tasks_pool():
     T.append((EstimationTask(Z([0], 1.1), C.Circuit([C.X(0)], n_qubits=1), 0), "zero-shot", [0.0]))
     T.append((EstimationTask(PauliSum(), C.Circuit([C.X(0)], n_qubits=2), 0), "constant", [0.0]))
     T.append((EstimationTask(PauliSum([PauliTerm("I0", 4.0), Z([0], 2.0), Z([1], -3.0)]), C.Circuit([C.X(1)], n_qubits=2), 0), "zero-shot", [0.0]))
+    # an operator as written by a user (not simplified): the same Z-support listed several times with different coefficients
+    T.append((EstimationTask(PauliSum([Z([0], 2.0), Z([1], 0.5), Z([0], 3.0), Z([1, 0], 4.0), Z([0, 1], -1.0)]), C.Circuit([C.X(0)], n_qubits=2), 4), "measured", [-2.0, 0.5, -3.0, -4.0, 1.0]))
     return T
 
 
@@ -81,7 +83,23 @@ def list_case(case):
         return {"ok": False, "msg": "the runner was not given exactly the measurable tasks, in order, with their shots", "expected": str([sig_of(c, n) for c, n in want]),
                 "observed": str([sig_of(c, n) for c, n in seen]), "sig": "list:runner-saw"}
     kinds = {pool[i][1] for i in case["tasks"]}
-    return {"ok": True, "nt": len(kinds) >= 2, "ops": len(tasks), "out": "+".join(sorted(kinds))[:40]}
+    # the caller owns the results: after shifting every returned result in place, a second estimation of freshly built tasks must be unaffected
+    for r in res:
+        try:
+            r.values += 7.0
+        except Exception:  # noqa: BLE001
+            pass
+    pool2 = tasks_pool()
+    with seams.owned_rng(seams.Script()):
+        res2 = estimate_expectation_values_by_averaging(logging_runner([]), [pool2[i][0] for i in case["tasks"]])
+    for pos, (i, r) in enumerate(zip(case["tasks"], res2)):
+        _, kind, exp = pool2[i]
+        vals = np.asarray(r.values, dtype=complex).reshape(-1)
+        ok = (abs(vals.sum() - exp[0]) < 1e-12) if kind == "constant" else (np.allclose(vals, 0) if kind == "zero-shot" else (len(vals) == len(exp) and np.allclose(vals, exp, atol=1e-12)))
+        if not ok:
+            return {"ok": False, "msg": "second estimation (after the caller modified the first results in place), position %d (%s): wrong values" % (pos, kind), "expected": str(exp), "observed": str(vals.tolist()),
+                    "sig": "list:second-call"}
+    return {"ok": True, "nt": len(kinds) >= 2, "ops": 2 * len(tasks), "out": "+".join(sorted(kinds))[:40]}
 
 
 def split_case(case):
@@ -165,7 +183,7 @@ def bind_case(case):
     from orquestra.quantum.api.estimation import EstimationTask
     from orquestra.quantum.estimation import evaluate_estimation_circuits
     from orquestra.quantum.operators import PauliTerm
-    th, ph = sympy.Symbol("theta"), sympy.Symbol("phi")
+    th, ph = (sympy.Symbol("theta", real=True), sympy.Symbol("phi", positive=True)) if case.get("assume") else (sympy.Symbol("theta"), sympy.Symbol("phi"))
     shared = C.Circuit([C.RX(th)(0), C.RY(ph)(1)], n_qubits=3)
     pool = [EstimationTask(PauliTerm({0: "Z"}, 1.0), shared, 5), EstimationTask(PauliTerm({1: "Z"}, 2.0), shared, 7),
             EstimationTask(PauliTerm({0: "Z", 1: "Z"}, 3.0), C.Circuit([C.RX(th * 2)(1)], n_qubits=2), None), EstimationTask(PauliTerm("I0", 1.0), C.Circuit([C.X(0)]), 0),
@@ -196,7 +214,7 @@ FUNCS = {"task_lists": list_case, "split": split_case, "shot_sweep": shots_case,
 def run(run):
     thorough = run.tier == "thorough"
     L = 5 if thorough else 4
-    lists = [list(c) for k in range(0, L + 1) for c in itertools.product(range(8), repeat=k)]
+    lists = [list(c) for k in range(0, L + 1) for c in itertools.product(range(8), repeat=k)] + [list(c) for k in (1, 2, 3) for c in itertools.product(range(9), repeat=k) if 8 in c]
     secs = [Section("task_lists", [{"tasks": l} for l in lists], list_case, horizon=120, desc="every task list of length <= %d over 8 tasks of the three kinds" % L),
             Section("split", [{"tasks": l} for l in lists if len(l) <= 3], split_case, desc="split_estimation_tasks_to_measure partitions positions in ascending order")]
     sw = [{"bits": list(b), "shots": s} for b in itertools.product((0, 1), repeat=3) for s in (1, 2, 3, 7, 8, 9, 10, 20)]
@@ -216,5 +234,7 @@ def run(run):
         for idx in itertools.product(range(6), repeat=k):
             for ms in ([MV[:k]] if k else [[]]) + ([[MV[(j + 1) % 3] for j in range(k)]] if k else []):
                 bc.append({"tasks": list(idx), "maps": ms})
+                if k <= 2:
+                    bc.append({"tasks": list(idx), "maps": ms, "assume": True})
     secs.append(Section("binding", bc, bind_case, horizon=120, desc="evaluate_estimation_circuits: every list of <=3 tasks (two share one circuit object) x per-task maps"))
     run.run_sections(secs)
